@@ -85,7 +85,8 @@ class InterruptableThread(threading.Thread):
         """
         Trigger a thread ending exception!
         """
-        assert self.is_alive(), "thread must be started"
+        if not self.is_alive():
+            return      # it finished by itself in the meantime: nothing to interrupt
         for thread_id, thread in threading._active.items():
             if thread is self:
                 InterruptableThread._async_raise(thread_id, exception)
